@@ -12,6 +12,7 @@ import operator
 import typing
 from abc import abstractmethod, ABC
 from collections import UserDict
+from collections.abc import Mapping
 from copy import copy
 from dataclasses import dataclass, field, fields, MISSING, is_dataclass
 from functools import lru_cache, cached_property
@@ -1569,7 +1570,10 @@ class Comparator(BinaryOperator):
             self.operation in [operator.eq, operator.ne]
             and is_iterable(left_value.value)
             and is_iterable(right_value.value)
+            and not isinstance(left_value.value, Mapping)
+            and not isinstance(right_value.value, Mapping)
         ):
+            # collections of values are compared as sets; the set of a mapping would be its keys only
             left_value = HashedValue(make_set(left_value.value))
             right_value = HashedValue(make_set(right_value.value))
         res = self.operation(left_value.value, right_value.value)
